@@ -15,12 +15,18 @@ PROGRAM_RULE = ("programs: the repository's own examples and minimized files, ha
 
 PROPS = {
     'C01': {
+        'na_reason': 'no theorem under its own name yet: the check (attribute-exact round trip of every compiled code object on 3.7-3.10 + model tie) exists, runs and detects seeded changes, and its components are proved under C02 (reader), C03 (assembler), C09 (tables), C10 (line table stages 1-2), C11 (flags); claiming level proof for the composed round trip before it is a theorem would overstate',
         'theorems': [],
         'eval_keys': ['code_objects'],
         'rule': PROGRAM_RULE + '; non-trivial = the code object round-trips attribute-exactly or a classified violation is reported',
         'statement_coverage': '',
     },
-    'C02': {'theorems': [], 'eval_keys': ['code_objects'], 'rule': PROGRAM_RULE},
+    'C02': {
+        'claimed': True,
+        'level_text': "Proved about the model of the decoder (_parse_bytes, to_arg, bytes_to_blocks) against the Spec layer's rendering of CPython's reader, for every byte string, every set of tables and every opcode classification - no bound: (instructions) _parse_bytes yields exactly CPython's instructions - opcode, signed 32-bit operand with EXTENDED_ARG prefixes folded, first and next offset - whenever no instruction has more than three prefixes (C02_instructions); (operands) the decoded list has one instruction per raw instruction with the same opcode, and each operand is related to the raw operand by CPython's own resolution rule for its class: co_names[arg], co_varnames[arg], cell iff arg < len(co_cellvars) else co_freevars[arg-len], co_consts[arg], absolute target arg x unit, relative target next offset + arg x unit with the right kind (C02_operands); (jumps) if every jump target is an instruction start, the block index stored in a jump is the index of the block whose first instruction is the instruction at the target offset (C02_jump_blocks, with C02_flatten = the C13 partition). Not yet a theorem: 'line_number is the line CPython's line table assigns' (stage 3 of the line codec; its stages 1-2 are proved under C10) and the glue of to_code_data around these pieces. Those, and that the model is the implementation, are decided on every run by the correspondence (model decode = implementation on every code object; Spec.read = dis.get_instructions + PyCode_Addr2Line / co_lines on every code object) and the direct oracle against dis on 3.7-3.10.",
+        'theorems': ['CDV.Props.C02.C02_instructions', 'CDV.Props.C02.C02_operands', 'CDV.Props.C02.C02_jump_blocks', 'CDV.Props.C02.C02_flatten'],
+        'modules': ['CDVProofs.Bytes', 'CDVProofs.DecodeOps', 'CDVProofs.BlockStarts', 'CDVProofs.ParseOffsets', 'CDVProofs.Props.C02'],
+        'eval_keys': ['code_objects'], 'rule': PROGRAM_RULE},
     'C13': {
         'claimed': True,
         'level_text': "Proved for every decoded instruction list (any offsets, any jumps - no bound): the block-building half of bytes_to_blocks returns blocks that concatenate to exactly the instruction sequence in order (only jump operands rewritten to block indices), none empty; there are exactly as many blocks as instructions whose offset is 0 or a jump target (no more, no fewer); grouping succeeds whenever the code starts at offset 0; every jump's block index is the rank of its target among the sorted targets and is smaller than the number of targets (C13_partition, C13_block_count, C13_total, C13_jump_index_in_targets). Not yet a theorem: that the number of targets equals the number of blocks (needs 'every jump target is an instruction start', a fact about compiled code) and that offsets produced by _parse_bytes are the instruction starts; those are decided by the correspondence (model decode = implementation on every code object) and the direct oracle against the jump-target set computed from dis.get_instructions.",
@@ -122,7 +128,11 @@ PROPS = {
         'rule': 'subprocess invocations: programs x {file, -c, -e} x subsets of the five output flags; every subset of the four source options with empty and non-empty values (usage errors); distinct = distinct (source kind, program, flags)',
     },
     'C03': {
-        'theorems': [],
+        'claimed': True,
+        'level_text': "Proved about the model of blocks_to_bytes, for every instruction list, block table, interpreter version and operand values - no bound on sizes or on the number of width-growth rounds: (termination) entered as the code enters it (every jump operand 1), the operand-width loop never exhausts 3 x jumps + 3 passes - each pass can only widen instructions, a pass that reports a change widens one, widths are at most 4 (C03_loop_terminates); (jumps land) whenever the loop returns, CPython's reader reads the assembled bytes back as one instruction per instruction with the same opcode, and the target CPython computes from each assembled jump operand is the offset of the first instruction of the jump's target block, for absolute and relative jumps on both operand units (C03_jumps_land, C03_reads_back; hypothesis: operands fit the C-int range / their width override); (operands) an index a table hands out for a name/variable/cell/constant still designates an entry equivalent under the table's key (constant_key for constants - C08 shows it separates 0.0 and -0.0, 1/True/1.0, str/bytes) after any further table operations, and lies inside the emitted tuple whenever to_tuple succeeds; colliding overrides raise in __setitem__, gaps raise in to_tuple (C03_operand_in_table, C03_collision_raises, C03_gap_raises). Not theorems: the line table written for the given lines (stage 3 of the line codec), signature/flags of the header, and 'decoding again gives equal data up to normalization' - decided, together with model = implementation, by the correspondence on hand-built CodeData (random block graphs straddling the 1/2/3-byte operand boundaries, operand tables that need EXTENDED_ARG operands, CPython-distinct equal constants, inconsistent overrides) and the direct oracle that reads to_code() back with dis / co_lines / inspect on 3.7-3.10.",
+        'theorems': ['CDV.Props.C03.C03_loop_terminates', 'CDV.Props.C03.C03_jumps_land', 'CDV.Props.C03.C03_reads_back', 'CDV.Props.C03.C03_default_width_fits',
+                     'CDV.Props.C03.C03_operand_in_table', 'CDV.Props.C03.C03_empty_inv', 'CDV.Props.C03.C03_collision_raises', 'CDV.Props.C03.C03_gap_raises'],
+        'modules': ['CDVProofs.Bytes', 'CDVProofs.Relax', 'CDVProofs.EncodeRead', 'CDVProofs.EncTables', 'CDVProofs.Props.C03'],
         'eval_keys': ['graphs'],
         'rule': 'hand-built CodeData without private fields: random block graphs (1-12 blocks, thorough up to 40; block sizes around 126-129 and 254-257 instructions so that offsets straddle the 1/2-byte operand boundary), absolute jumps both directions and forward relative jumps, operand tables of 0..400 entries (EXTENDED_ARG operands), constants that are equal but CPython-distinct, lines same/increasing/wild (+-127/128/255/256/1000, None on 3.10), all signature shapes; plus inconsistent-override data (must raise) and user-edited decoded data; distinct = distinct serialised CodeData',
     },
